@@ -38,7 +38,9 @@ Print Assumptions c25_fields_refuted.
    protocol, foundation, component, priority, address form, TCP type).  With
    that guard the conversion round-trips on every listed field, and so does
    the whole path through the wire, given that pion/ice's Marshal followed by
-   UnmarshalCandidate preserves what the getters return. *)
+   UnmarshalCandidate preserves what the getters return (premise
+   [wire_getters]; suite icecontract checks exactly this on generated
+   candidates on every run, direct oracle ice-contract-getter-not-preserved). *)
 Section Wire.
   Variable wire : ice_cand -> ice_cand.     (* UnmarshalCandidate (Marshal i) *)
   Hypothesis wire_getters : forall i, from_ice (wire i) = from_ice i.
@@ -63,6 +65,35 @@ Theorem c25_ufrag_filter : forall d i,
   (add_ice_candidate (Some d) i = Forwarded \/ add_ice_candidate (Some d) i = Dropped).
 Proof. exact ufrag_filter. Qed.
 Print Assumptions c25_ufrag_filter.
+
+(* The filter composed with the signalling round trip: for every representable
+   candidate (in particular every one whose extension list contains a ufrag),
+   ToJSON succeeds and AddICECandidate's decision on the candidate parsed back
+   from the signalled string equals its decision on the original.  [wire] is
+   pion/ice's UnmarshalCandidate (Marshal i'); the filter reads the parsed
+   candidate through GetExtension, whose preservation is the visible premise
+   (checked on generated candidates by suite icecontract on every run). *)
+Section FilterWire.
+  Variable wire : ice_cand -> ice_cand.     (* UnmarshalCandidate (Marshal i) *)
+  Hypothesis wire_get_extension : forall i k, get_ext k (i_exts (wire i)) = get_ext k (i_exts i).
+
+  Theorem c25_filter_roundtrip_invariant : forall d i, representable i ->
+    exists i', to_ice (from_ice i) = Ok i' /\
+               add_ice_candidate d (wire i') = add_ice_candidate d i.
+  Proof. exact (filter_roundtrip wire wire_get_extension). Qed.
+
+  (* spelled out for a candidate that carries a ufrag: after the round trip it
+     is dropped iff that ufrag is neither the session-level nor a media-level
+     ice-ufrag of the applied description, forwarded iff it is one of them *)
+  Theorem c25_filter_roundtrip_ufrag : forall d i u, representable i ->
+    get_ext (s "ufrag") (i_exts i) = Some u ->
+    exists i', to_ice (from_ice i) = Ok i' /\
+      (add_ice_candidate (Some d) (wire i') = Dropped <-> d_session d <> Some u /\ ~ In (Some u) (d_media d)) /\
+      (add_ice_candidate (Some d) (wire i') = Forwarded <-> (d_session d = Some u \/ In (Some u) (d_media d))).
+  Proof. exact (filter_roundtrip_ufrag wire wire_get_extension). Qed.
+End FilterWire.
+Print Assumptions c25_filter_roundtrip_invariant.
+Print Assumptions c25_filter_roundtrip_ufrag.
 
 (* "the ufrag extension": GetExtension returns the first pair with the key *)
 Theorem c25_get_extension_first : forall k l v, get_ext k l = Some v <->
